@@ -211,9 +211,10 @@ def h_concrete_only(w):
 def cases(tier, seed):
     cs = []
     combos = [('2R', 'I', 'fresh'), ('2R', 'B1', 'fresh'), ('2R', 'I', 'moved'), ('2R', 'B1', 'tool'), ('2R', 'I', 'moved_tool'),
-              ('2R', 'B1', 'tool_restored'), ('3R', 'B1', 'fresh'), ('3R', 'I', 'tool'), ('test6R', 'I', 'fresh'), ('test6R', 'B1', 'moved')]
+              ('2R', 'B1', 'tool_restored'), ('3R', 'B1', 'fresh'), ('3R', 'I', 'tool'), ('test6R', 'I', 'fresh'), ('test6R', 'B1', 'moved'),
+              ('1R', 'B1', 'moved_tool')]      # one-joint arm: the size boundary (F29 was found here)
     if tier == 'thorough':
-        combos += [('1R', 'B1', 'moved_tool'), ('3R', 'B1', 'moved_tool'), ('test6R', 'I', 'tool'), ('3R', 'I', 'tool_restored')]
+        combos += [('1R', 'I', 'fresh'), ('3R', 'B1', 'moved_tool'), ('test6R', 'I', 'tool'), ('3R', 'I', 'tool_restored')]
     for arm, base, st in combos:
         p = dict(arm=arm, base=base, state=st)
         tag = '%s_%s_%s' % (arm, base, st)
